@@ -492,6 +492,27 @@ fn e_redact(p: &[Vec<u8>]) -> Ret {
         Err(e) => er(format!("{e:?}")),
     }
 }
+/// public content sub-structures that derive Deserialize and can be read from a text on their own
+/// (not only through the enum that buffers the value first)
+fn e_content_parts(p: &[Vec<u8>]) -> Ret {
+    let s = txt(p, 0);
+    let which = part(p, 1).first().copied().unwrap_or(b'0');
+    fn go<T: serde::de::DeserializeOwned + std::fmt::Debug>(s: &str) -> Ret {
+        match serde_json::from_str::<T>(s) {
+            Ok(v) => ok(format!("{v:?}")),
+            Err(e) => er(format!("{e}")),
+        }
+    }
+    match which {
+        b'0' => go::<ruma_events::room::join_rules::Restricted>(&s),
+        b'1' => go::<ruma_events::room::join_rules::AllowRule>(&s),
+        b'2' => go::<ruma_events::room::join_rules::JoinRule>(&s),
+        b'3' => go::<ruma_events::room::power_levels::RoomPowerLevelsEventContent>(&s),
+        b'4' => go::<ruma_events::room::member::RoomMemberEventContent>(&s),
+        _ => go::<ruma_events::room::join_rules::RoomJoinRulesEventContent>(&s),
+    }
+}
+
 fn e_from_der(p: &[Vec<u8>]) -> Ret {
     match Ed25519KeyPair::from_der(part(p, 0), txt(p, 1)) {
         Ok(k) => {
